@@ -64,7 +64,8 @@ def _where(e):
 def _blind(path, spec, o, finder=None):
     sf = fm._state["sf"]
     f = finder or sf.SourceFinder()
-    srcs = f.find_sources_in_image(path, rms=spec["noise"], bkg=0.0, cores=1, innerclip=o["innerclip"],
+    srcs = f.find_sources_in_image(path, cube_index=(1 if spec.get("cube") else None),
+                                   rms=spec["noise"], bkg=0.0, cores=1, innerclip=o["innerclip"],
                                    outerclip=o["outerclip"], max_summits=o["max_summits"], doislandflux=o["islands"],
                                    nopositive=o["nopositive"], nonegative=o["nonegative"], docov=o["docov"])
     return f, srcs
@@ -73,7 +74,8 @@ def _blind(path, spec, o, finder=None):
 def _prior(path, spec, cat, p, finder=None):
     sf = fm._state["sf"]
     f = finder or sf.SourceFinder()
-    srcs = f.priorized_fit_islands(path, catalogue=copy.deepcopy(cat), rms=spec["noise"], bkg=0.0, cores=1,
+    srcs = f.priorized_fit_islands(path, catalogue=copy.deepcopy(cat), cube_index=(1 if spec.get("cube") else None),
+                                   rms=spec["noise"], bkg=0.0, cores=1,
                                    stage=p["stage"], doregroup=p["regroup"], docov=p["docov"], ratio=p["ratio"])
     return f, srcs
 
@@ -267,7 +269,7 @@ def _prior_from_file(ch, out, models, spec, path, comps, o, twin2, history):
 
 def _case_body(ch, out, models, spec, path, o, variant, twin, twin2=None):
     history = ["blind"]
-    out.sample = {"image": {k: spec[k] for k in ("layout", "rows", "cols", "crval", "proj", "pix_arcsec", "beam_pix", "noise")},
+    out.sample = {"image": {k: spec[k] for k in ("layout", "rows", "cols", "crval", "proj", "cd_matrix", "beam_ratio", "bpa", "float64", "cube", "pix_arcsec", "beam_pix", "noise")},
                   "nsources_injected": len(spec["sources"]), "options": dict(o), "history": history}
 
     counter = fm.CallCounter()
